@@ -3,6 +3,7 @@
 From Coq Require Import NArith ZArith List Bool Lia.
 From Srtp Require Import Util Constants KeyLimit Rdb Rdbx Icm World Stream Rtp Rtcp Session MonadLemmas RejectProofs
   EnvelopeProofs WfProofs BoundsRtcp BoundsRtp LengthProofs Aead.
+From Srtp Require RtpSpecProofs.
 From Srtp.Crypto Require Import AES GCM.
 Import ListNotations.
 Local Open Scope Z_scope.
@@ -48,6 +49,10 @@ Qed.
 Lemma h_facts {A} (F : Prop) (P P' : world -> Prop) (m : M A) Q E :
   (forall w, P w -> F /\ P' w) -> (F -> hoare P' m Q E) -> hoare P m Q E.
 Proof. intros H1 H2 w HP. destruct (H1 w HP) as [f p]. exact (H2 f w p). Qed.
+
+Lemma slice_splice_eq {A} o n (v l : list A) :
+  length v = n -> (o + n <= length l)%nat -> slice o n (splice o v l) = v.
+Proof. intros <- H. apply RtpSpecProofs.slice_splice_same. exact H. Qed.
 
 Section AEAD_RTP.
 Variable SP : stream -> Prop.
@@ -188,6 +193,7 @@ Proof.
     - apply h_put_stream. apply (SP_commit SP SPc). exact Hst2.
     - hseq (CI pkt0). { hif; [hexit|hkeep]. }
       apply h_put_stream. apply (SP_upd SP SPc). apply (SP_upd SP SPc). exact Hst2. }
+  hseq (CI pkt0). { unfold log_gcm_iv. apply h_sb0. apply sb_log_iv. }
   hseq (CI pkt0). { destruct (k_xtn_c k); [apply h_log_encrypt_iv|hkeep]. }
   (* RFC 6904 *)
   assert (LC : L <= C) by lia.
@@ -220,14 +226,83 @@ Proof.
 Qed.
 
 (* ---- srtp_unprotect with a GCM key ---- *)
-(* The RFC 6904 step of srtp_unprotect_aead runs BEFORE the cryptex clean-up: when cryptex shuffled
-   the header in place (CC > 0) the four octets at the place of the extension header are then the
-   last (decrypted) CSRC, not the extension header, and their low half is taken as the length of
-   the extension (unprotect_aead_oob_witness below).  HX excludes that one combination:
-   in place, CC > 0, cryptex stream whose key has a header-extension cipher. *)
-Hypothesis HX : al = true -> hdr_cc pkt0 <> 0 ->
-  forall st k, SP st -> In k (s_keys st) -> s_cryptex st = true -> k_xtn_c k = None.
+(* what is known of the destination while cryptex works on it *)
+Definition LF (pkt dd : bytes) : Prop :=
+  hdr_x pkt = 1 -> slice (zn (hdr_len pkt) + 2) 2 dd = slice (zn (hdr_len pkt) + 2) 2 pkt.
+Definition CA (pkt dd : bytes) : Prop :=
+  hdr_x pkt = 1 -> slice 12 4 dd = slice (zn (hdr_len pkt)) 4 pkt.
 
+Lemma CI_LF pkt dd : CI pkt dd -> LF pkt dd.
+Proof.
+  intros H X. rewrite <- !(slice_slice 2 2 (zn (hdr_len pkt)) 4) by lia. rewrite (H X). reflexivity.
+Qed.
+
+(* the RFC 6904 walk only needs the length field of the extension header *)
+Lemma h_process_xtn_lf (K : bytes -> Prop) st pkt xcs :
+  (forall dd, lenZ dd = lenZ d0 -> K dd -> slice (zn (hdr_len pkt) + 2) 2 dd = slice (zn (hdr_len pkt) + 2) 2 pkt) ->
+  hdr_len pkt + xtn_len pkt <= C ->
+  hoare (I K) (process_xtn st pkt xcs) (fun _ => I Kany) NoOob.
+Proof.
+  intros HK HB. pose proof (hdr_cc_range pkt) as CC. pose proof (hdr_len_eq pkt) as HLn.
+  pose proof (xtn_len_ge pkt) as XL.
+  unfold process_xtn.
+  eapply h_bind; [apply h_rd_dst; lia|intros h]. apply h_pure; intros (dd & Kdd & Ldd & ->).
+  change (zn 4) with 4%nat.
+  assert (EN : be16 (slice (zn (hdr_len pkt)) 4 dd) 2 * 4 = xtn_len pkt - 4).
+  { rewrite be16_slice4. unfold be16 at 1. rewrite (HK dd Ldd Kdd). unfold xtn_len.
+    replace (zn (hdr_len pkt + 2)) with (zn (hdr_len pkt) + 2)%nat by (unfold zn; lia). unfold be16. lia. }
+  rewrite EN.
+  hif; [hexit|].
+  eapply h_bind; [apply h_rd_dst; lia|intros d]. apply h_pure; intros (dd2 & _ & _ & ->).
+  pose proof (lenZ_slice_le (hdr_len pkt + 4) (xtn_len pkt - 4) dd2 ltac:(lia)) as LD.
+  set (d := slice (zn (hdr_len pkt + 4)) (zn (xtn_len pkt - 4)) dd2) in *.
+  match goal with |- context [match ?r with Some _ => _ | None => _ end] => destruct r as [d'|] eqn:ER end; [|hexit].
+  assert (LE : length d' = length d).
+  { destruct (_ =? xtn_hdr_one_byte_profile_c); [exact (xtn_one_length _ _ _ _ _ _ ER)|exact (xtn_two_length _ _ _ _ _ _ ER)]. }
+  apply h_wr_dst_any; [lia|]. unfold lenZ in *. lia.
+Qed.
+
+(* the two buffer shuffles, with what they do to the extension header *)
+Lemma h_cryptex_adjust_c pkt :
+  hdr_cc pkt <> 0 -> hdr_len pkt + 4 <= C ->
+  hoare (I (CI pkt)) (cryptex_adjust pkt) (fun _ => I (CA pkt)) NoOob.
+Proof.
+  intros NC HB. pose proof (hdr_cc_range pkt) as CC. pose proof (hdr_len_eq pkt) as HLn.
+  unfold cryptex_adjust. change octets_in_rtp_header_c with 12.
+  destruct (hdr_cc pkt =? 0) eqn:E0; [apply Z.eqb_eq in E0; contradiction|].
+  eapply h_bind; [apply h_rd_dst; lia|intros tmp]. apply h_pure; intros (dd & Kdd & Ldd & ->).
+  eapply h_bind; [apply h_rd_dst; lia|intros csrc]. apply h_pure; intros (dd2 & _ & _ & ->).
+  pose proof (lenZ_slice_eq (hdr_len pkt) 4 dd ltac:(lia) ltac:(lia) ltac:(lia)) as LT.
+  pose proof (lenZ_slice_le 12 (4 * hdr_cc pkt) dd2 ltac:(lia)).
+  hseq Kany; [apply h_wr_dst_any; lia|].
+  apply h_wr_dst; [lia|lia|]. intros dd3 Ld3 _ X.
+  change (zn 12) with 12%nat. change (zn 4) with 4%nat in *.
+  rewrite slice_splice_eq by (unfold lenZ in *; lia). exact (Kdd X).
+Qed.
+Lemma h_cryptex_restore_c pkt :
+  hdr_cc pkt <> 0 -> hdr_len pkt + 4 <= C ->
+  hoare (I (CA pkt)) (cryptex_restore pkt) (fun _ => I (CI pkt)) NoOob.
+Proof.
+  intros NC HB. pose proof (hdr_cc_range pkt) as CC. pose proof (hdr_len_eq pkt) as HLn.
+  unfold cryptex_restore. change octets_in_rtp_header_c with 12.
+  destruct (hdr_cc pkt =? 0) eqn:E0; [apply Z.eqb_eq in E0; contradiction|].
+  eapply h_bind; [apply h_rd_dst; lia|intros tmp]. apply h_pure; intros (dd & Kdd & Ldd & ->).
+  eapply h_bind; [apply h_rd_dst; lia|intros csrc]. apply h_pure; intros (dd2 & _ & _ & ->).
+  pose proof (lenZ_slice_eq 12 4 dd ltac:(lia) ltac:(lia) ltac:(lia)) as LT.
+  pose proof (lenZ_slice_le (12 + 4) (4 * hdr_cc pkt) dd2 ltac:(lia)).
+  hseq Kany; [apply h_wr_dst_any; lia|].
+  apply h_wr_dst; [lia|lia|]. intros dd3 Ld3 _ X.
+  change (zn 12) with 12%nat in *. change (zn 4) with 4%nat in *.
+  rewrite <- HLn.
+  rewrite slice_splice_eq by (unfold lenZ, zn in *; lia). exact (Kdd X).
+Qed.
+Lemma h_cryptex_restore0 (K : bytes -> Prop) pkt :
+  hdr_cc pkt = 0 -> hoare (I K) (cryptex_restore pkt) (fun _ => I K) NoOob.
+Proof. intros E. unfold cryptex_restore. rewrite E. cbn [Z.eqb]. hkeep. Qed.
+
+(* With cryptex the extension elements lie in the encrypted part of the packet: the second parse
+   check of srtp_unprotect_aead (the whole extension must end before the trailer) keeps the
+   RFC 6904 walk, which runs on the restored header, inside the decrypted packet. *)
 Lemma unprotect_aead_safe : hoare (I (eq d0)) unprotect_aead (fun _ => I Kany) NoOob.
 Proof.
   unfold unprotect_aead.
@@ -256,12 +331,12 @@ Proof.
   destruct (SP_key SP SPwf _ _ Hst Hk) as (M & U & MK & TA & _).
   pose proof TA as [T _]. rewrite max_tag_value in T.
   (* cryptex in use? *)
-  apply h_bind with (R := fun (iu : bool) w => (iu = true -> s_cryptex st = true /\ hdr_x pkt0 = 1 /\ cryptex_profile pkt0) /\ I (eq d0) w).
+  apply h_bind with (R := fun (iu : bool) w => (iu = true -> hdr_x pkt0 = 1 /\ cryptex_profile pkt0) /\ I (eq d0) w).
   { destruct (s_cryptex st && negb (Z.land (s_rtp_serv st) sec_serv_conf_c =? 0) && (hdr_x pkt0 =? 1)) eqn:EC.
-    - apply andb_true_iff in EC. destruct EC as [EC1 EC2]. apply andb_true_iff in EC1. destruct EC1 as [EC1 _].
+    - apply andb_true_iff in EC. destruct EC as [_ EC2].
       apply Z.eqb_eq in EC2. specialize (X4 EC2).
       eapply h_bind; [apply h_rd_src; lia|intros h]. apply h_pure; intros (dd & <- & _ & ->).
-      apply h_ret. intros w HI. split; [|exact HI]. intros HP. split; [exact EC1|]. split; [exact EC2|].
+      apply h_ret. intros w HI. split; [|exact HI]. intros HP. split; [exact EC2|].
       change (zn 4) with 4%nat in HP. rewrite be16_slice4_0 in HP.
       match type of HP with context [be16 ?X (zn (hdr_len pkt0))] =>
         pose proof (be16_take X (zn L) (zn (hdr_len pkt0)) ltac:(unfold zn in *; lia)) as EB;
@@ -272,7 +347,7 @@ Proof.
   intros inuse. apply h_pure; intros IU.
   apply h_bind with (R := fun (xl : Z) w => (inuse = true -> xl = xtn_len pkt0) /\ I (eq d0) w).
   { destruct inuse; [|apply h_ret; intros w HI; split; [discriminate|exact HI]].
-    destruct (IU eq_refl) as (_ & X & _). specialize (X4 X).
+    destruct (IU eq_refl) as (X & _). specialize (X4 X).
     eapply h_bind; [apply h_rd_src; lia|intros h]. apply h_pure; intros (dd & <- & _ & ->).
     apply h_ret. intros w HI. split; [|exact HI]. intros _.
     change (zn 4) with 4%nat. rewrite be16_slice4. unfold xtn_len.
@@ -287,7 +362,7 @@ Proof.
                (inuse = true -> es + sh = hdr_len pkt0 + 4) /\
                (sh = if inuse && al then hdr_cc pkt0 * 4 else 0)).
   { subst es sh. destruct inuse.
-    - destruct (IU eq_refl) as (_ & X & _). rewrite (XLE eq_refl), X. cbn [Z.eqb Pos.eqb andb].
+    - destruct (IU eq_refl) as (X & _). rewrite (XLE eq_refl), X. cbn [Z.eqb Pos.eqb andb].
       specialize (X4 X).
       assert (E : u64 (u64 (hdr_len pkt0 + xtn_len pkt0 - (xtn_len pkt0 - 4)) - (if al then hdr_cc pkt0 * 4 else 0)) =
                   hdr_len pkt0 + 4 - (if al then hdr_cc pkt0 * 4 else 0)).
@@ -301,28 +376,39 @@ Proof.
   destruct ES as (ES1 & ESh & ESL & ES2 & ES3 & ES4 & ES5).
   destruct (inuse && negb (inuse && al) && negb (hdr_cc pkt0 =? 0)) eqn:ENP; [hexit|]. apply h_bind_ret.
   destruct (u64 (L - ak_tag (k_rtp_a k) - s_mki_size st) <? u64 (es + sh)) eqn:E2; [hexit|]. apply h_bind_ret. apply Z.ltb_ge in E2.
+  destruct (inuse && (u64 (L - ak_tag (k_rtp_a k) - s_mki_size st) <? u64 (hdr_len pkt0 + xl))) eqn:EXF; [hexit|]. apply h_bind_ret.
   destruct (u64 (L - es - s_mki_size st) <? ak_tag (k_rtp_a k)) eqn:E2b; [hexit|]. apply h_bind_ret. apply Z.ltb_ge in E2b.
   destruct (C <? u64 (L - s_mki_size st - ak_tag (k_rtp_a k))) eqn:E3; [hexit|]. apply h_bind_ret. apply Z.ltb_ge in E3.
   assert (A0 : 0 <= L - s_mki_size st - ak_tag (k_rtp_a k)).
   { destruct (Z_lt_le_dec (L - s_mki_size st - ak_tag (k_rtp_a k)) 0) as [N|]; [|assumption].
     rewrite u64_neg in E3 by lia. lia. }
   rewrite u64_small in E3 by lia. rewrite (u64_small (es + sh)) in E2 by lia. rewrite u64_small in E2 by lia.
+  assert (XF : inuse = true -> hdr_len pkt0 + xtn_len pkt0 <= L - ak_tag (k_rtp_a k) - s_mki_size st).
+  { intros EI. rewrite EI in EXF. cbn [andb] in EXF. apply Z.ltb_ge in EXF.
+    destruct (IU EI) as (X & _). specialize (V3 X). rewrite (XLE EI) in EXF.
+    rewrite (u64_small (hdr_len pkt0 + xtn_len pkt0)) in EXF by lia. rewrite u64_small in EXF by lia. exact EXF. }
+  clear EXF.
   rewrite (u64_small (L - es - s_mki_size st)) in * by lia.
-  (* shuf: the header has been shuffled in place *)
+  (* shuf: the header is shuffled in place between cryptex_adjust and cryptex_restore *)
   remember (inuse && al && negb (hdr_cc pkt0 =? 0)) as shuf eqn:Hshuf.
   assert (SH0 : shuf = false -> sh = 0).
   { intros E. rewrite ES5. rewrite E in Hshuf. destruct (inuse && al); [|reflexivity].
     cbn [andb] in Hshuf. destruct (hdr_cc pkt0 =? 0) eqn:EC0; [apply Z.eqb_eq in EC0; lia|discriminate]. }
+  assert (SH1 : shuf = true -> inuse = true /\ al = true /\ hdr_cc pkt0 <> 0 /\ es = 16).
+  { intros E. rewrite E in Hshuf. symmetry in Hshuf. apply andb_true_iff in Hshuf. destruct Hshuf as [H1 H2].
+    apply andb_true_iff in H1. destruct H1 as [EI EA].
+    assert (NC : hdr_cc pkt0 <> 0) by (intros Z0; rewrite Z0 in H2; discriminate).
+    split; [exact EI|]. split; [exact EA|]. split; [exact NC|].
+    specialize (ES4 EI). rewrite EI, EA in ES5. cbn [andb] in ES5. lia. }
+  set (KA := fun dd : bytes => if shuf then CA pkt0 dd else CI pkt0 dd).
   hseq (CI pkt0). { apply (h_copy_header SP L C al src d0 HD HA HS pkt0 es Hpkt0); try assumption; lia. }
-  hseq (fun dd => shuf = false -> CI pkt0 dd).
-  { destruct (inuse && al) eqn:EIA.
+  hseq KA.
+  { subst KA. destruct (inuse && al) eqn:EIA.
     - destruct (hdr_cc pkt0 =? 0) eqn:EC0.
-      + apply Z.eqb_eq in EC0. eapply h_post; [apply h_cryptex_adjust0; exact EC0|].
-        intros ? w. apply inv_weaken. intros dd _ HCI _. exact HCI.
-      + apply andb_true_iff in EIA. destruct EIA as [EI _]. specialize (ES4 EI).
-        eapply h_post; [apply h_cryptex_adjust; hs; lia|].
-        intros ? w. apply inv_weaken. intros dd _ _ F. cbn in Hshuf. rewrite Hshuf in F. discriminate.
-    - apply h_ret. intros w. apply inv_weaken. intros dd _ HCI _. exact HCI. }
+      + cbn in Hshuf. subst shuf. apply Z.eqb_eq in EC0. apply h_cryptex_adjust0; exact EC0.
+      + cbn in Hshuf. subst shuf. destruct (SH1 eq_refl) as (EI & _ & NC & _). specialize (ES4 EI).
+        apply h_cryptex_adjust_c; [exact NC|lia].
+    - cbn in Hshuf. subst shuf. hkeep. }
   eapply h_bind; [apply h_rd_src; lia|intros aad]. apply h_pure; intros _.
   eapply h_bind; [apply h_rd_src; lia|intros d]. apply h_pure; intros (dd & _ & Ldd & ->).
   pose proof (src_slice_len dd es (L - es - s_mki_size st) Ldd ES1 ltac:(lia) ltac:(lia)) as LD.
@@ -330,31 +416,44 @@ Proof.
   destruct (gcm_open_length _ _ _ _ _ _ _ _ (proj1 T) EG) as [(-> & LO & _)|(NS & ->)].
   2:{ apply Z.eqb_neq in NS. rewrite NS. cbn [negb]. hexit. }
   cbn [Z.eqb negb]. rewrite LD in LO.
-  hseq (fun dd => shuf = false -> CI pkt0 dd).
-  { apply h_wr_dst; [lia|lia|]. intros dd1 _ HCI F. apply CI_above; [|exact (HCI F)].
-    intros X. specialize (SH0 F). destruct inuse.
-    - specialize (ES4 eq_refl). lia.
-    - rewrite (ES3 eq_refl X). lia. }
-  hseq (fun dd => shuf = false -> CI pkt0 dd). { apply h_charge_key; hs. }
+  hseq KA.
+  { apply h_wr_dst; [lia|lia|]. intros dd1 _ HKA. subst KA. cbv beta in *. destruct shuf.
+    - destruct (SH1 eq_refl) as (_ & _ & _ & E16). intros X. rewrite E16.
+      rewrite slice_splice_below by (unfold zn; lia). exact (HKA X).
+    - apply CI_above; [|exact HKA]. intros X. specialize (SH0 eq_refl). destruct inuse.
+      + specialize (ES4 eq_refl). lia.
+      + rewrite (ES3 eq_refl X). lia. }
+  hseq KA. { apply h_charge_key; hs. }
   eapply h_bind; [apply h_get_stream|intros st']. apply h_pure; intros Hst'.
+  (* srtp_cryptex_unprotect_cleanup, now before the RFC 6904 walk *)
+  hseq (LF pkt0).
+  { destruct inuse eqn:EI.
+    - destruct (IU eq_refl) as (X & _). specialize (ES4 eq_refl).
+      hseq (CI pkt0).
+      { subst KA. destruct (true && al) eqn:EIA.
+        - destruct (hdr_cc pkt0 =? 0) eqn:EC0.
+          + cbn in Hshuf. subst shuf. apply Z.eqb_eq in EC0. apply h_cryptex_restore0; exact EC0.
+          + cbn in Hshuf. subst shuf. destruct (SH1 eq_refl) as (_ & _ & NC & _).
+            apply h_cryptex_restore_c; [exact NC|lia].
+        - cbn in Hshuf. subst shuf. hkeep. }
+      eapply h_bind; [apply h_rd_dst; lia|intros h]. apply h_pure; intros _.
+      assert (SPF : forall v, hoare (I (CI pkt0)) (set_profile pkt0 v) (fun _ => I (LF pkt0)) NoOob).
+      { intros v. unfold set_profile. apply h_wr_dst; [lia|rewrite lenZ_be_bytes; lia|].
+        intros dd1 _ HCI X1. rewrite RtpSpecProofs.slice_splice_above.
+        - exact (CI_LF _ _ HCI X1).
+        - pose proof (lenZ_be_bytes 2 (Z.to_N v)) as LB. unfold lenZ in LB. lia. }
+      hif; [apply SPF|]. hif; [apply SPF|].
+      apply h_ret. intros w. apply inv_weaken. intros dd1 _. apply CI_LF.
+    - assert (shuf = false) as -> by (subst shuf; reflexivity). subst KA.
+      apply h_ret. intros w. apply inv_weaken. intros dd1 _. apply CI_LF. }
   (* RFC 6904 on the output *)
   hseq Kany.
   { destruct (k_xtn_c k) as [xk|] eqn:EK; [|hany].
     destruct (hdr_x pkt0 =? 1) eqn:EX; [|hany]. apply Z.eqb_eq in EX.
-    destruct shuf eqn:ESF.
-    - exfalso. symmetry in Hshuf. apply andb_true_iff in Hshuf. destruct Hshuf as [H1 H2].
-      apply andb_true_iff in H1. destruct H1 as [EI EA]. destruct (IU EI) as (CX & _ & _).
-      assert (NC : hdr_cc pkt0 <> 0) by (intros Z0; rewrite Z0 in H2; discriminate).
-      rewrite (HX EA NC st k Hst Hk CX) in EK. discriminate.
-    - specialize (SH0 eq_refl). destruct inuse eqn:EI.
-      + destruct (IU eq_refl) as (_ & _ & PF). specialize (ES4 eq_refl).
-        apply h_process_xtn_cx; [|lia|exact PF]. intros dd1 _ HCI. exact (HCI eq_refl EX).
-      + apply h_process_xtn; hs; [|rewrite (ES3 eq_refl EX) in E2; lia]. intros dd1 _ HCI. exact (HCI eq_refl EX). }
-  hseq Kany.
-  { destruct inuse eqn:EI; [|hkeep]. destruct (IU eq_refl) as (_ & X & _). specialize (ES4 eq_refl).
-    hseq Kany. { cbn [andb]. destruct al; [apply h_cryptex_restore; hs; lia|hkeep]. }
-    eapply h_bind; [apply h_rd_dst; lia|intros h]. apply h_pure; intros _.
-    hif; [apply h_set_profile; lia|]. hif; [apply h_set_profile; lia|hkeep]. }
+    apply h_process_xtn_lf; [intros dd1 _ HLF; exact (HLF EX)|].
+    destruct inuse eqn:EI.
+    - specialize (XF eq_refl). lia.
+    - specialize (SH0 ltac:(subst shuf; reflexivity)). rewrite (ES3 eq_refl EX) in E2. lia. }
   hseq Kany. { apply h_check_direction; hs. }
   eapply h_bind; [apply h_materialize; hs|intros r].
   eapply h_bind; [apply h_get_stream|intros st2]. apply h_pure; intros Hst2.
@@ -460,101 +559,30 @@ Print Assumptions protect_aead_small_buffer_refused.
 (* ===================================================================== *)
 (* C10 for srtp_unprotect with a GCM key                                  *)
 (* ===================================================================== *)
-(* a cryptex stream none of whose keys has an RFC 6904 header-extension cipher *)
-Definition no_xtn_with_cryptex (st : stream) : Prop :=
-  s_cryptex st = true -> Forall (fun k => k_xtn_c k = None) (s_keys st).
-
-Lemma session_all_and (A B : stream -> Prop) (G : Prop) s :
-  session_all A s -> (G -> session_all B s) -> session_all (fun st => A st /\ (G -> B st)) s.
-Proof.
-  intros [A1 A2] HB. split.
-  - intros t Et. split; [exact (A1 t Et)|]. intros g. exact (proj1 (HB g) t Et).
-  - rewrite Forall_forall in *. intros st Hin. split; [exact (A2 st Hin)|].
-    intros g. pose proof (proj2 (HB g)) as F. rewrite Forall_forall in F. exact (F st Hin).
-Qed.
-
-(* PARTIAL: the statement of unprotect_no_oob holds for the GCM path except when cryptex has
-   shuffled the header in place (in == out and CC > 0) on a stream that also has an RFC 6904
-   cipher; that case is refuted below (unprotect_aead_no_oob_refuted). *)
-Theorem unprotect_aead_no_oob_partial w :
+(* Same premises as unprotect_no_oob, no condition on cryptex or RFC 6904.  (The statement was
+   refuted twice for earlier versions of srtp_unprotect_aead; the two witnesses are kept below
+   as regression statements.) *)
+Theorem unprotect_aead_no_oob w :
   b_oob (w_b w) = false -> size_ok (b_len (w_b w)) -> size_ok (b_cap (w_b w)) ->
   b_cap (w_b w) <= lenZ (b_dst (w_b w)) ->
   (b_alias (w_b w) = true -> b_len (w_b w) <= lenZ (b_dst (w_b w))) ->
   (b_alias (w_b w) = false -> b_len (w_b w) <= lenZ (b_src (w_b w))) ->
   session_wf (w_s w) ->
-  (b_alias (w_b w) = true -> hdr_cc (take (zn (b_len (w_b w))) (cur_src (w_b w))) <> 0 ->
-   session_all no_xtn_with_cryptex (w_s w)) ->
   b_oob (w_b (fst (unprotect_aead w))) = false.
 Proof.
-  intros HO HL HC HD HA HS HW HX.
-  set (G := b_alias (w_b w) = true /\ hdr_cc (take (zn (b_len (w_b w))) (cur_src (w_b w))) <> 0).
-  set (SP := fun st => stream_wf st /\ (G -> no_xtn_with_cryptex st)).
-  assert (SPc : cfg_closed SP).
-  { intros a b Hc [W N]. split; [exact (stream_wf_cfg a b Hc W)|].
-    intros g. specialize (N g). destruct Hc as (K & _ & _ & X). unfold no_xtn_with_cryptex. rewrite K, X. exact N. }
-  assert (SPwf : forall st, SP st -> stream_wf st) by (intros st [W _]; exact W).
-  assert (HSS : session_all SP (w_s w)).
-  { apply session_all_and; [exact HW|]. intros [g1 g2]. exact (HX g1 g2). }
+  intros HO HL HC HD HA HS HW.
   eapply hoare_noob;
-    [apply (unprotect_aead_safe SP SPc SPwf _ _ _ _ _ HL HC HD HA HS _ eq_refl)| |apply inv_init; assumption].
-  - intros EA NC st k [_ N] Hin CX.
-    assert (g : G).
-    { split; [exact EA|]. unfold cur_src. rewrite EA. rewrite EA in NC. exact NC. }
-    specialize (N g CX). rewrite Forall_forall in N. exact (N k Hin).
-  - intros a w' H. exact (inv_noob _ _ _ _ _ _ _ _ H).
+    [apply (unprotect_aead_safe stream_wf stream_wf_cfg (fun st h => h) _ _ _ _ _ HL HC HD HA HS _ eq_refl)
+    | |apply inv_init; assumption].
+  intros a w' H. exact (inv_noob _ _ _ _ _ _ _ _ H).
 Qed.
-Print Assumptions unprotect_aead_no_oob_partial.
-
-(* three readable instances *)
-Corollary unprotect_aead_no_oob_out_of_place w :
-  b_oob (w_b w) = false -> size_ok (b_len (w_b w)) -> size_ok (b_cap (w_b w)) ->
-  b_cap (w_b w) <= lenZ (b_dst (w_b w)) -> b_alias (w_b w) = false ->
-  b_len (w_b w) <= lenZ (b_src (w_b w)) -> session_wf (w_s w) ->
-  b_oob (w_b (fst (unprotect_aead w))) = false.
-Proof.
-  intros HO HL HC HD EA HS HW. apply unprotect_aead_no_oob_partial; try assumption.
-  - rewrite EA. discriminate.
-  - intros _. exact HS.
-  - rewrite EA. discriminate.
-Qed.
-Corollary unprotect_aead_no_oob_no_csrc w :
-  b_oob (w_b w) = false -> size_ok (b_len (w_b w)) -> size_ok (b_cap (w_b w)) ->
-  b_cap (w_b w) <= lenZ (b_dst (w_b w)) ->
-  (b_alias (w_b w) = true -> b_len (w_b w) <= lenZ (b_dst (w_b w))) ->
-  (b_alias (w_b w) = false -> b_len (w_b w) <= lenZ (b_src (w_b w))) ->
-  session_wf (w_s w) ->
-  hdr_cc (take (zn (b_len (w_b w))) (cur_src (w_b w))) = 0 ->
-  b_oob (w_b (fst (unprotect_aead w))) = false.
-Proof.
-  intros HO HL HC HD HA HS HW E0. apply unprotect_aead_no_oob_partial; try assumption.
-  intros _ N. contradiction.
-Qed.
-Corollary unprotect_aead_no_oob_no_xtn_cipher w :
-  b_oob (w_b w) = false -> size_ok (b_len (w_b w)) -> size_ok (b_cap (w_b w)) ->
-  b_cap (w_b w) <= lenZ (b_dst (w_b w)) ->
-  (b_alias (w_b w) = true -> b_len (w_b w) <= lenZ (b_dst (w_b w))) ->
-  (b_alias (w_b w) = false -> b_len (w_b w) <= lenZ (b_src (w_b w))) ->
-  session_wf (w_s w) -> session_all no_xtn_with_cryptex (w_s w) ->
-  b_oob (w_b (fst (unprotect_aead w))) = false.
-Proof.
-  intros HO HL HC HD HA HS HW HN. apply unprotect_aead_no_oob_partial; try assumption.
-  intros _ _. exact HN.
-Qed.
-Print Assumptions unprotect_aead_no_oob_out_of_place.
-Print Assumptions unprotect_aead_no_oob_no_csrc.
-Print Assumptions unprotect_aead_no_oob_no_xtn_cipher.
+Print Assumptions unprotect_aead_no_oob.
 
 (* ===================================================================== *)
-(* REFUTED: unprotect_aead_no_oob without the side condition               *)
+(* witnesses                                                              *)
 (* ===================================================================== *)
 (* One stream (SSRC CAFEBABE): AES-GCM-128 with a 16-octet tag, cryptex enabled, RFC 6904
-   header-extension encryption configured for id 1 (an AES-ICM-128 extension cipher), no MKI.
-   The sender protects, in place, a packet with X = 1, CC = 1 whose only CSRC is BE DE 00 40.
-   The receiver (same keys) unprotects the result in place in a 96-octet block.  After the GCM
-   decryption the header is still shuffled (cryptex_adjust: extension header at [12,16), the
-   decrypted CSRC at [16,20) = the place where the extension header was on the wire); process_xtn
-   (srtp_process_header_encryption) runs before cryptex_restore, reads 0xBEDE as a one-byte-form
-   profile and 0x0040 as the extension length, and works on [20, 20 + 256) of a block of 96. *)
+   header-extension encryption configured for id 1 (an AES-ICM-128 extension cipher), no MKI. *)
 Module AeadWitness.
 Definition gkey : ckey := cipher_key SRTP_AES_GCM_128_c 28 (map N.of_nat (seq 1 28)).
 Definition xkey : ckey := cipher_key SRTP_AES_ICM_128_c 30 (map N.of_nat (seq 50 30)).
@@ -571,18 +599,34 @@ Definition strm : stream :=
      s_use_mki := false; s_mki_size := 0; s_allow_repeat := false; s_cryptex := true;
      s_enc_xtn := [1%N] |}.
 Definition sess0 : session := {| ss_template := None; ss_list := [strm]; ss_cap := 1 |}.
-(* V=2 X=1 CC=1, seq 0x1234, SSRC CAFEBABE, CSRC BEDE0040, extension BEDE of one word
-   (id 1 len 3), five octets of payload *)
+
+(* (1) the witness against the library before the fix "srtp_unprotect_aead restores the cryptex
+   layout before RFC 6904 processing": V=2 X=1 CC=1, seq 0x1234, SSRC CAFEBABE, CSRC BEDE0040,
+   extension BEDE of one word (id 1 len 3), five octets of payload; protected and unprotected
+   in place in a 96-octet block *)
 Definition pkt : bytes :=
   [145;96;18;52; 0;0;0;9; 202;254;186;190; 190;222;0;64; 190;222;0;1; 18;170;187;204; 1;2;3;4;5]%N.
 Definition inpl (p : bytes) : bufs :=
   {| b_src := []; b_dst := p ++ repeat 170%N (96 - length p); b_alias := true; b_len := lenZ p; b_cap := 96; b_oob := false |}.
 Definition sender : world := Witness.mkw sess0 (inpl pkt).
-(* what srtp_protect (GCM) makes of it: 29 + 16 octets *)
 Definition wire : bytes :=
   [145;96;18;52; 0;0;0;9; 202;254;186;190; 4;79;6;116; 192;222;0;1; 171;161;254;86; 33;99;19;0;140;
    85;245;228;14;201;166;110;105;84;165;98;89;111;202;251;5]%N.
 Definition receiver : world := Witness.mkw sess0 (inpl wire).
+
+(* (2) an authentic packet whose extension header announces more than the packet holds:
+   12-octet header (X=1, CC=0), extension header C0 DE 00 04 (cryptex profile, four words of
+   extension data), NO further plaintext, and the 16-octet GCM tag of the empty plaintext with
+   these 16 octets as AAD (made with the session key: gcm_encrypt below).  len = 32,
+   len - tag = 16 = *out_len; the "extension data" [16,32) are the tag.  Witness against the
+   library before the fix "srtp_unprotect_aead checks that the whole cryptex extension fits". *)
+Definition hdr2 : bytes := [144;96;18;52; 0;0;0;9; 202;254;186;190; 192;222;0;4]%N.
+Definition tag2 : bytes := [240;8;78;151;82;226;247;217;95;225;215;139;74;182;199;55]%N.
+Definition wire2 : bytes := hdr2 ++ tag2.
+Definition receiver2_out_of_place : world := Witness.mkw sess0
+  {| b_src := wire2; b_dst := repeat 0%N 16; b_alias := false; b_len := 32; b_cap := 16; b_oob := false |}.
+Definition receiver2_in_place : world := Witness.mkw sess0
+  {| b_src := []; b_dst := wire2; b_alias := true; b_len := 32; b_cap := 16; b_oob := false |}.
 
 Lemma sess0_wf : session_wf sess0.
 Proof.
@@ -599,17 +643,51 @@ Example aead_wire_is_protected :
   b_oob (w_b (fst (protect_aead 0 AeadWitness.sender))) = false.
 Proof. vm_compute. repeat split. Qed.
 
-Theorem unprotect_aead_no_oob_refuted :
+(* regression: the old witness is now unprotected without any out-of-bounds access, and gives
+   the sender's packet back *)
+Theorem unprotect_aead_old_witness_safe :
   bufs_ok AeadWitness.receiver /\ session_wf (w_s AeadWitness.receiver) /\
   snd (unprotect_aead AeadWitness.receiver) = inl 29 /\
-  b_oob (w_b (fst (unprotect_aead AeadWitness.receiver))) = true.
+  b_oob (w_b (fst (unprotect_aead AeadWitness.receiver))) = false /\
+  take 29 (b_dst (w_b (fst (unprotect_aead AeadWitness.receiver)))) = AeadWitness.pkt.
 Proof.
   split.
   { unfold bufs_ok, size_ok. cbn. repeat split; try lia; try discriminate; intros; lia. }
-  split; [exact AeadWitness.sess0_wf|]. split; vm_compute; reflexivity.
+  split; [exact AeadWitness.sess0_wf|]. repeat split; vm_compute; reflexivity.
+Qed.
+
+(* regression: the second witness (against the version that walked the extension on the restored
+   header without checking that the whole extension fits the decrypted packet).  The packet is
+   authentic ... *)
+Example aead_wire2_is_authentic :
+  AeadWitness.tag2 = snd (gcm_encrypt (ck_rks AeadWitness.gkey)
+                            (aead_rtp_iv (k_salt AeadWitness.keys0) AeadWitness.ssrc0 4660) AeadWitness.hdr2 [] 16).
+Proof. vm_compute. reflexivity. Qed.
+
+(* ... and is now refused with parse_err before anything is written: no out-of-bounds access,
+   destination and session untouched, in both alias modes *)
+Theorem unprotect_aead_overlong_extension_refused :
+  (bufs_ok AeadWitness.receiver2_out_of_place /\ session_wf (w_s AeadWitness.receiver2_out_of_place) /\
+   snd (unprotect_aead AeadWitness.receiver2_out_of_place) = inr st_parse_err /\
+   b_oob (w_b (fst (unprotect_aead AeadWitness.receiver2_out_of_place))) = false /\
+   b_dst (w_b (fst (unprotect_aead AeadWitness.receiver2_out_of_place))) = b_dst (w_b AeadWitness.receiver2_out_of_place) /\
+   w_s (fst (unprotect_aead AeadWitness.receiver2_out_of_place)) = w_s AeadWitness.receiver2_out_of_place) /\
+  (bufs_ok AeadWitness.receiver2_in_place /\ session_wf (w_s AeadWitness.receiver2_in_place) /\
+   snd (unprotect_aead AeadWitness.receiver2_in_place) = inr st_parse_err /\
+   b_oob (w_b (fst (unprotect_aead AeadWitness.receiver2_in_place))) = false /\
+   b_dst (w_b (fst (unprotect_aead AeadWitness.receiver2_in_place))) = b_dst (w_b AeadWitness.receiver2_in_place) /\
+   w_s (fst (unprotect_aead AeadWitness.receiver2_in_place)) = w_s AeadWitness.receiver2_in_place).
+Proof.
+  split.
+  - split. { unfold bufs_ok, size_ok. cbn. repeat split; try lia; try discriminate; intros; lia. }
+    split; [exact AeadWitness.sess0_wf|]. repeat split; vm_compute; reflexivity.
+  - split. { unfold bufs_ok, size_ok. cbn. repeat split; try lia; try discriminate; intros; lia. }
+    split; [exact AeadWitness.sess0_wf|]. repeat split; vm_compute; reflexivity.
 Qed.
 Print Assumptions aead_wire_is_protected.
-Print Assumptions unprotect_aead_no_oob_refuted.
+Print Assumptions unprotect_aead_old_witness_safe.
+Print Assumptions aead_wire2_is_authentic.
+Print Assumptions unprotect_aead_overlong_extension_refused.
 
 (* ===================================================================== *)
 (* C11 for srtp_unprotect with a GCM key                                  *)
@@ -736,6 +814,7 @@ Proof.
   destruct ES as (ES1 & ESh & ESL).
   destruct (inuse && negb (inuse && b_alias (w_b w0)) && negb (hdr_cc pkt =? 0)); [apply h_bind_exit; apply tt_any|]. apply h_bind_ret.
   destruct (u64 (L - ak_tag (k_rtp_a k) - s_mki_size st) <? u64 (es + sh)) eqn:E2; [apply h_bind_exit; apply tt_any|]. apply h_bind_ret. apply Z.ltb_ge in E2.
+  destruct (inuse && (u64 (L - ak_tag (k_rtp_a k) - s_mki_size st) <? u64 (hdr_len pkt + xl))); [apply h_bind_exit; apply tt_any|]. apply h_bind_ret.
   destruct (u64 (L - es - s_mki_size st) <? ak_tag (k_rtp_a k)) eqn:E2b; [apply h_bind_exit; apply tt_any|]. apply h_bind_ret. apply Z.ltb_ge in E2b.
   destruct (C <? u64 (L - s_mki_size st - ak_tag (k_rtp_a k))) eqn:E3; [apply h_bind_exit; apply tt_any|]. apply h_bind_ret. apply Z.ltb_ge in E3.
   assert (A0 : 0 <= L - s_mki_size st - ak_tag (k_rtp_a k)).
